@@ -1,6 +1,7 @@
 import Hgxv.Model.C12
 import Hgxv.Model.C12Hist
 import Hgxv.Proofs.C12LinkC02
+import Hgxv.Proofs.C12Ext
 import Mathlib.Algebra.Order.Field.Rat
 import Mathlib.Algebra.Order.Field.Basic
 /-! # C12 — directed measures follow their definitions; exact ≤ strong ≤ weak reciprocity
@@ -504,3 +505,311 @@ example : (AL.get? (histRun [] (C12.rejectHistory.take 4)) 0).map histListing = 
     (AL.get? (histRun [] C12.rejectHistory) 0).map (fun s => signature (histListing s) 3) = some [2, 0, 0, 0] ∧
     (AL.get? (histRun [] C12.rejectHistory) 0).map (fun s => recCount isExact (bounded 3 (histListing s)) 2) = some 2 := by
   decide
+
+/-! ## Extension round: the routines as the Python code runs them, and the identities between the measures
+
+Model: `Hgxv/Model/C12Ext.lean`, helper lemmas: `Hgxv/Proofs/C12Ext.lean` (core Lean).  Every definition used below is
+run by the driver and compared with the implementation on every check (`callin callout seqin seqout sums lexact lstrong
+lweak ltabs lsig sigdef sigagg rev`). -/
+
+/-! ### option handling of the degree routines -/
+
+/-- `order` / `size`: both given = the call raises; `order = o` means total size `o + 1` (also for `o = 0`), `size = k`
+means `k`, neither means no filter - and nothing else -/
+theorem C12_filter_options (order size : Option Nat) :
+    (filterArg order size = none ↔ order.isSome ∧ size.isSome) ∧
+    (∀ o, filterArg (some o) none = some (some (o + 1))) ∧
+    (∀ k, filterArg none (some k) = some (some k)) ∧ filterArg none none = some none := by
+  refine ⟨?_, fun _ => rfl, fun _ => rfl, rfl⟩
+  cases order <;> cases size <;> simp [filterArg]
+
+/-- `in_degree / out_degree(h, node, order, size)`: raises exactly when the node is not listed or both options are given;
+otherwise it is the count of `Model/C12.lean` under the selected size; `order = o` and `size = o + 1` are the same call -/
+theorem C12_degree_calls (nodes : List Nat) (es : List DEdge) (order size : Option Nat) (n : Nat) :
+    (inDegreeCall nodes es order size n = none ↔ n ∉ nodes ∨ (order.isSome ∧ size.isSome)) ∧
+    (outDegreeCall nodes es order size n = none ↔ n ∉ nodes ∨ (order.isSome ∧ size.isSome)) ∧
+    (∀ f, n ∈ nodes → filterArg order size = some f →
+      inDegreeCall nodes es order size n = some (inDegree es f n) ∧
+      outDegreeCall nodes es order size n = some (outDegree es f n)) ∧
+    (∀ o, inDegreeCall nodes es (some o) none n = inDegreeCall nodes es none (some (o + 1)) n ∧
+      outDegreeCall nodes es (some o) none n = outDegreeCall nodes es none (some (o + 1)) n) := by
+  have hf := (C12_filter_options order size).1
+  refine ⟨?_, ?_, ?_, fun _ => ⟨rfl, rfl⟩⟩
+  · unfold inDegreeCall
+    by_cases hn : n ∈ nodes
+    · simp [hn, hf]
+    · simp [hn]
+  · unfold outDegreeCall
+    by_cases hn : n ∈ nodes
+    · simp [hn, hf]
+    · simp [hn]
+  · intro f hn h
+    simp [inDegreeCall, outDegreeCall, hn, h]
+
+/-- the sequences are the dict comprehension over `get_nodes()`: they raise exactly when there IS a node and both options
+are given (no node: `{}` without looking at the options); otherwise every node once, in node order, with the answer of
+the single call -/
+theorem C12_sequence_calls (nodes : List Nat) (es : List DEdge) (order size : Option Nat) :
+    (inDegreeSeqCall nodes es order size = none ↔ nodes ≠ [] ∧ order.isSome ∧ size.isSome) ∧
+    (outDegreeSeqCall nodes es order size = none ↔ nodes ≠ [] ∧ order.isSome ∧ size.isSome) ∧
+    (∀ seq, inDegreeSeqCall nodes es order size = some seq →
+      seq.map (·.1) = nodes ∧ ∀ p ∈ seq, inDegreeCall nodes es order size p.1 = some p.2) ∧
+    (∀ seq, outDegreeSeqCall nodes es order size = some seq →
+      seq.map (·.1) = nodes ∧ ∀ p ∈ seq, outDegreeCall nodes es order size p.1 = some p.2) := by
+  have hf := (C12_filter_options order size).1
+  refine ⟨?_, ?_, ?_, ?_⟩
+  · cases nodes with
+    | nil => simp [inDegreeSeqCall]
+    | cons a l => cases h : filterArg order size <;> simp [inDegreeSeqCall, h, ← hf]
+  · cases nodes with
+    | nil => simp [outDegreeSeqCall]
+    | cons a l => cases h : filterArg order size <;> simp [outDegreeSeqCall, h, ← hf]
+  · intro seq h
+    cases nodes with
+    | nil => simp [inDegreeSeqCall] at h; subst h; simp
+    | cons a l =>
+      cases hfa : filterArg order size with
+      | none => simp [inDegreeSeqCall, hfa] at h
+      | some f =>
+        simp only [inDegreeSeqCall, hfa, Option.some.injEq] at h
+        subst h
+        refine ⟨by simp [inDegreeSeq, List.map_map, Function.comp_def], ?_⟩
+        intro p hp
+        simp only [inDegreeSeq, List.mem_map] at hp
+        obtain ⟨n, hn, rfl⟩ := hp
+        simp [inDegreeCall, hfa, List.mem_cons.mp hn]
+  · intro seq h
+    cases nodes with
+    | nil => simp [outDegreeSeqCall] at h; subst h; simp
+    | cons a l =>
+      cases hfa : filterArg order size with
+      | none => simp [outDegreeSeqCall, hfa] at h
+      | some f =>
+        simp only [outDegreeSeqCall, hfa, Option.some.injEq] at h
+        subst h
+        refine ⟨by simp [outDegreeSeq, List.map_map, Function.comp_def], ?_⟩
+        intro p hp
+        simp only [outDegreeSeq, List.mem_map] at hp
+        obtain ⟨n, hn, rfl⟩ := hp
+        simp [outDegreeCall, hfa, List.mem_cons.mp hn]
+
+/-! ### handshake identities (degree.py against the listing)
+
+Hypotheses = what every `DirectedHypergraph` guarantees (`C12_link_listing`): `get_nodes()` duplicate-free, every side of a
+listed hyperedge duplicate-free and made of listed nodes. -/
+
+/-- the in-degrees of all nodes sum to the source sizes of the selected hyperedges, the out-degrees to the target sizes,
+both together to the total sizes; under `size = k` that is `k` times the number of hyperedges of size `k` -/
+theorem C12_handshake (nodes : List Nat) (es : List DEdge) (size : Option Nat) (hn : nodes.Nodup)
+    (hs : ∀ e ∈ es, e.1.Nodup ∧ e.2.Nodup ∧ ∀ x, (x ∈ e.1 ∨ x ∈ e.2) → x ∈ nodes) :
+    sumInDegrees nodes es size = sumSourceSizes es size ∧
+    sumOutDegrees nodes es size = sumTargetSizes es size ∧
+    sumInDegrees nodes es size + sumOutDegrees nodes es size = ((selected es size).map esize).sum ∧
+    (∀ k, size = some k →
+      sumInDegrees nodes es size + sumOutDegrees nodes es size = k * (ofSize k es).length) := by
+  have h1 := handshake_in nodes es size hn (fun e he => ⟨(hs e he).1, fun x hx => (hs e he).2.2 x (Or.inl hx)⟩)
+  have h2 := handshake_out nodes es size hn (fun e he => ⟨(hs e he).2.1, fun x hx => (hs e he).2.2 x (Or.inr hx)⟩)
+  refine ⟨h1, h2, by rw [h1, h2, sum_sides], ?_⟩
+  intro k hk
+  subst hk
+  rw [h1, h2, sum_sides]
+  have : selected es (some k) = ofSize k es := rfl
+  rw [this]
+  apply sum_const
+  intro e he
+  simpa [ofSize] using (List.mem_filter.mp he).2
+
+/-! ### the loops of `reciprocity.py` and `hyperedge_signature.py` compute the closed forms -/
+
+/-- what the dict-building first loops hold when they end: `tot[k]` = number of hyperedges of the bounded set of size `k`;
+`edge_set` = the bounded set; `s ∈ node_reach[n]` iff some hyperedge of the bounded set has `n` among its sources and `s`
+among its targets (a node that is nobody's source has no entry); `(i, j) ∈ bin_edges` iff some hyperedge of the bounded
+set has `i` as a source and `j` as a target -/
+theorem C12_loop_tables (es : List DEdge) (m : Nat) :
+    (∀ k, k ≤ m → (totLoop es m).getD k 0 = total (bounded m es) k) ∧
+    edgeSetLoop es m = bounded m es ∧
+    (∀ n s, (∃ r, AL.get? (reachLoop es m) n = some r ∧ s ∈ r) ↔ ∃ f ∈ bounded m es, n ∈ f.1 ∧ s ∈ f.2) ∧
+    (∀ i j, (i, j) ∈ binLoop es m ↔ ∃ f ∈ bounded m es, i ∈ f.1 ∧ j ∈ f.2) := by
+  refine ⟨?_, edgeSetLoop_eq es m, fun n s => inTbl_reachLoop es m n s, fun i j => mem_binLoop es m (i, j)⟩
+  intro k hk
+  unfold totLoop total ofSize
+  rw [countLoopIf_getD _ _ _ _ _ (by omega), bounded_eq_filter]
+
+/-- the three routines, run loop by loop as written (`tot`, `edge_set`, the reach / pair tables, `rec`, the division), return
+the tables of `Model/C12.lean` - to which `C12_order`, `C12_range`, `C12_empty_size` apply -/
+theorem C12_loops (es : List DEdge) (m : Nat) :
+    exactLoop es m = reciprocityTable isExact es m ∧
+    strongLoop es m = reciprocityTable isStrong es m ∧
+    weakLoop es m = reciprocityTable isWeak es m :=
+  ⟨loop_table _ isExact es m (exactTest_eq es m), loop_table _ isStrong es m (strongTest_eq es m),
+   loop_table _ isWeak es m (weakTest_eq es m)⟩
+
+/-- `np.zeros((m-1, m-1))`, `signature[s-1, t-1] += 1` per hyperedge within the bound, `flatten()` = the flat vector of
+`Model/C12.lean` (non-empty sides: no index leaves its row) -/
+theorem C12_signature_loop (es : List DEdge) (m : Nat) (hne : ∀ e ∈ es, e.1 ≠ [] ∧ e.2 ≠ []) :
+    signatureLoop es m = signature es m :=
+  signatureLoop_eq es m hne
+
+/-- the default bound is the largest size: no hyperedge = empty vector; otherwise the vector for `m = max size`, whose
+cells sum to the number of ALL hyperedges, and some hyperedge has exactly that size -/
+theorem C12_signature_default (es : List DEdge) (hne : ∀ e ∈ es, e.1 ≠ [] ∧ e.2 ≠ []) :
+    (es = [] → signatureDefault es = []) ∧
+    (∀ m, maxSize es = some m → signatureDefault es = signature es m ∧ (signatureDefault es).sum = es.length ∧
+      (∀ e ∈ es, esize e ≤ m) ∧ ∃ e ∈ es, esize e = m) ∧
+    (es ≠ [] → ∃ m, maxSize es = some m) := by
+  refine ⟨?_, ?_, ?_⟩
+  · intro h; subst h; rfl
+  · intro m hm
+    have sp := maxSizeE_spec es m hm
+    have e1 : signatureDefault es = signature es m := by
+      unfold signatureDefault; rw [hm]; exact signatureLoop_eq es m hne
+    refine ⟨e1, ?_, sp.1, sp.2⟩
+    rw [e1, C12_signature_sum es m hne, List.countP_eq_length]
+    intro e he
+    exact decide_eq_true (sp.1 e he)
+  · intro h
+    cases hm : maxSize es with
+    | none => exact absurd ((maxSizeE_none es).mp hm) h
+    | some m => exact ⟨m, rfl⟩
+
+/-! ### identities between signature, reciprocity denominators and degrees -/
+
+/-- the anti-diagonal `source size + target size = k` of the signature sums to `tot[k]`, the denominator of the three
+reciprocity ratios of size `k` (`2 ≤ k ≤ m`) -/
+theorem C12_signature_diagonal (es : List DEdge) (m k : Nat) (hk : 2 ≤ k) (hkm : k ≤ m)
+    (hne : ∀ e ∈ es, e.1 ≠ [] ∧ e.2 ≠ []) :
+    sigDiagonal (signature es m) m k = total (bounded m es) k := by
+  unfold sigDiagonal
+  have cell : ∀ a ∈ List.range (k - 1), (signature es m).getD (a * (m - 1) + (k - 2 - a)) 0 =
+      ((es.filter (fun e => esize e == k)).filter (fun e => e.1.length - 1 == a)).length := by
+    intro a ha
+    have ha' : a < k - 1 := List.mem_range.mp ha
+    have c := C12_signature_cell es m (a + 1) (k - 1 - a) (by omega) (by omega) (by omega) hne
+    have h1 : a + 1 - 1 = a := by omega
+    have h2 : k - 1 - a - 1 = k - 2 - a := by omega
+    rw [h1, h2] at c
+    rw [List.getD_eq_getElem?_getD, c, Option.getD_some, List.filter_filter, ← List.countP_eq_length_filter]
+    apply List.countP_congr
+    intro e he
+    have hl1 : 1 ≤ e.1.length := List.length_pos_iff.mpr (hne e he).1
+    simp only [Bool.and_eq_true, beq_iff_eq, esize]
+    omega
+  rw [List.map_congr_left cell, sum_cells]
+  unfold total ofSize bounded
+  rw [List.filter_filter, List.countP_filter, List.countP_eq_length_filter]
+  congr 1
+  apply List.filter_congr
+  intro e he
+  have hl1 : 1 ≤ e.1.length := List.length_pos_iff.mpr (hne e he).1
+  have hl2 : 1 ≤ e.2.length := List.length_pos_iff.mpr (hne e he).2
+  rw [Bool.eq_iff_iff]
+  simp only [Bool.and_eq_true, beq_iff_eq, esize]
+  constructor
+  · rintro ⟨h1, h2⟩
+    have a1 : 2 ≤ e.1.length + e.2.length := by omega
+    have a2 : e.1.length + e.2.length ≤ m := by omega
+    exact ⟨h2, decide_eq_true a1, decide_eq_true a2⟩
+  · rintro ⟨h1, _, _⟩
+    have a1 : e.1.length - 1 < k - 1 := by omega
+    exact ⟨decide_eq_true a1, h1⟩
+
+/-- degree.py against hyperedge_signature.py: the cells weighted by their source size (target size) sum to the number of
+sources (targets) of the hyperedges within the bound; when the bound is at least the largest size (e.g. the default
+bound) that is the sum of all in-degrees (out-degrees) -/
+theorem C12_signature_degrees (nodes : List Nat) (es : List DEdge) (m : Nat)
+    (hne : ∀ e ∈ es, e.1 ≠ [] ∧ e.2 ≠ []) :
+    sigSourceWeighted (signature es m) m = ((es.filter (fun e => esize e ≤ m)).map (·.1.length)).sum ∧
+    sigTargetWeighted (signature es m) m = ((es.filter (fun e => esize e ≤ m)).map (·.2.length)).sum ∧
+    ((∀ e ∈ es, esize e ≤ m) → nodes.Nodup →
+      (∀ e ∈ es, e.1.Nodup ∧ e.2.Nodup ∧ ∀ x, (x ∈ e.1 ∨ x ∈ e.2) → x ∈ nodes) →
+      sigSourceWeighted (signature es m) m = sumInDegrees nodes es none ∧
+      sigTargetWeighted (signature es m) m = sumOutDegrees nodes es none) := by
+  refine ⟨sigSourceWeighted_eq es m hne, sigTargetWeighted_eq es m hne, ?_⟩
+  intro hall hn hs
+  have h := C12_handshake nodes es none hn hs
+  have hf : es.filter (fun e => esize e ≤ m) = es :=
+    List.filter_eq_self.mpr (fun e he => decide_eq_true (hall e he))
+  have hsel : selected es none = es := List.filter_eq_self.mpr (fun e _ => rfl)
+  rw [sigSourceWeighted_eq es m hne, sigTargetWeighted_eq es m hne, hf, h.1, h.2.1]
+  unfold sumSourceSizes sumTargetSizes
+  rw [hsel]
+  exact ⟨rfl, rfl⟩
+
+/-! ### the reversed hypergraph -/
+
+/-- exchanging sources and targets of every hyperedge exchanges in- and out-degree (every filter), transposes the
+signature (cells `a + b ≤ m`), and leaves the exact and the weak reciprocity of every size unchanged -/
+theorem C12_reverse (es : List DEdge) (m k : Nat) (size : Option Nat) (n : Nat) :
+    inDegree (reverse es) size n = outDegree es size n ∧
+    outDegree (reverse es) size n = inDegree es size n ∧
+    reciprocity isExact (reverse es) m k = reciprocity isExact es m k ∧
+    reciprocity isWeak (reverse es) m k = reciprocity isWeak es m k ∧
+    ((∀ e ∈ es, e.1 ≠ [] ∧ e.2 ≠ []) → ∀ a b, 1 ≤ a → 1 ≤ b → a + b ≤ m →
+      (signature (reverse es) m)[(a - 1) * (m - 1) + (b - 1)]? = (signature es m)[(b - 1) * (m - 1) + (a - 1)]?) := by
+  refine ⟨inDegree_reverse es size n, outDegree_reverse es size n,
+    reciprocity_reverse isExact isExact_reverse es m k, reciprocity_reverse isWeak isWeak_reverse es m k, ?_⟩
+  intro hne a b ha hb hab
+  have hne' : ∀ e ∈ reverse es, e.1 ≠ [] ∧ e.2 ≠ [] := by
+    intro e he
+    simp only [reverse, List.mem_map] at he
+    obtain ⟨f, hf, rfl⟩ := he
+    exact ⟨(hne f hf).2, (hne f hf).1⟩
+  rw [C12_signature_cell (reverse es) m a b ha hb hab hne', C12_signature_cell es m b a hb ha (by omega) hne]
+  congr 1
+  unfold reverse
+  rw [List.countP_map]
+  apply List.countP_congr
+  intro e _
+  simp only [Function.comp, Bool.and_comm]
+
+/-! ### the identities on every object a history can produce -/
+
+/-- after every history of public calls (C02's quantifier; rejected calls included), for the object in any slot, every
+filter: Σ in-degrees = Σ source sizes, Σ out-degrees = Σ target sizes of the selected hyperedges of `get_edges()`; the
+flattened 2-d accumulation is the signature; the anti-diagonals of the signature are the reciprocity denominators -/
+theorem C12_hist_identities (cs : List C02.Cmd) (hcs : ∀ c ∈ cs, c.WF) (slot : Nat) (s : C02.Store)
+    (hs : AL.get? (histRun [] cs) slot = some s) (m k : Nat) (size : Option Nat) :
+    sumInDegrees (histNodes s) (histListing s) size = sumSourceSizes (histListing s) size ∧
+    sumOutDegrees (histNodes s) (histListing s) size = sumTargetSizes (histListing s) size ∧
+    signatureLoop (histListing s) m = signature (histListing s) m ∧
+    (2 ≤ k → k ≤ m → sigDiagonal (signature (histListing s) m) m k = total (bounded m (histListing s)) k) := by
+  rw [(C12_hist_run [] cs).1] at hs
+  have l := C12_link_listing cs hcs slot s hs
+  have hne : ∀ e ∈ listing s, e.1 ≠ [] ∧ e.2 ≠ [] := fun e he => by
+    have := l.2.2.2.2.2.2 e he
+    exact ⟨this.1, this.2.1⟩
+  have hsd : ∀ e ∈ listing s, e.1.Nodup ∧ e.2.Nodup ∧ ∀ x, (x ∈ e.1 ∨ x ∈ e.2) → x ∈ C02.nodes s := fun e he => by
+    have := l.2.2.2.2.2.2 e he
+    exact ⟨this.2.2.1.nodupS, this.2.2.1.nodupT, this.2.2.2⟩
+  have h := C12_handshake (C02.nodes s) (listing s) size l.2.2.2.2.2.1 hsd
+  exact ⟨h.1, h.2.1, C12_signature_loop _ m hne, fun h1 h2 => C12_signature_diagonal _ m k h1 h2 hne⟩
+
+/-! ### non-vacuity of the extension round: the 6-hyperedge example -/
+def C12.exN : List Nat := [1, 2, 3, 4, 5, 6, 7, 9]
+def C12.exE : List DEdge := [([1], [2]), ([2], [1]), ([1], [3]), ([3, 7], [1]), ([5], [6]), ([4], [5])]
+
+example : C12.exN.Nodup ∧ (∀ e ∈ C12.exE, e.1.Nodup ∧ e.2.Nodup ∧ ∀ x, (x ∈ e.1 ∨ x ∈ e.2) → x ∈ C12.exN) ∧
+    (∀ e ∈ C12.exE, e.1 ≠ [] ∧ e.2 ≠ []) := by
+  have h : ∀ e ∈ C12.exE, e.1.Nodup ∧ e.2.Nodup ∧ ∀ x ∈ e.1 ++ e.2, x ∈ C12.exN := by decide
+  refine ⟨by decide, ?_, by decide⟩
+  intro e he
+  exact ⟨(h e he).1, (h e he).2.1, fun x hx => (h e he).2.2 x (List.mem_append.mpr hx)⟩
+example : sumInDegrees C12.exN C12.exE none = 7 ∧ sumSourceSizes C12.exE none = 7 ∧
+    sumOutDegrees C12.exN C12.exE none = 6 ∧ sumTargetSizes C12.exE none = 6 ∧
+    sumInDegrees C12.exN C12.exE (some 3) + sumOutDegrees C12.exN C12.exE (some 3) = 3 * 1 := by decide
+example : inDegreeCall C12.exN C12.exE (some 1) none 1 = some 2 ∧ inDegreeCall C12.exN C12.exE none (some 2) 1 = some 2 ∧
+    inDegreeCall C12.exN C12.exE (some 1) (some 2) 1 = none ∧ inDegreeCall C12.exN C12.exE none none 8 = none ∧
+    outDegreeCall C12.exN C12.exE (some 0) none 1 = some 0 ∧
+    inDegreeSeqCall [] [] (some 1) (some 2) = some [] ∧ inDegreeSeqCall C12.exN C12.exE (some 1) (some 2) = none := by decide
+example : signatureMatrix C12.exE 3 = [[5, 0], [1, 0]] ∧ signatureLoop C12.exE 3 = [5, 0, 1, 0] ∧
+    signatureDefault C12.exE = [5, 0, 1, 0] ∧ maxSize C12.exE = some 3 ∧
+    sigSourceWeighted (signature C12.exE 3) 3 = 7 ∧ sigTargetWeighted (signature C12.exE 3) 3 = 6 ∧
+    sigDiagonal (signature C12.exE 3) 3 2 = 5 ∧ sigDiagonal (signature C12.exE 3) 3 3 = 1 ∧
+    signature (reverse C12.exE) 3 = [5, 1, 0, 0] := by decide
+example : totLoop C12.exE 3 = [0, 0, 5, 1] ∧ edgeSetLoop C12.exE 2 = [([1], [2]), ([2], [1]), ([1], [3]), ([5], [6]), ([4], [5])] ∧
+    reachLoop C12.exE 3 = [(1, [2, 3]), (2, [1]), (3, [1]), (7, [1]), (5, [6]), (4, [5])] ∧
+    binLoop C12.exE 2 = [(1, 2), (2, 1), (1, 3), (5, 6), (4, 5)] ∧
+    recLoop (exactTest (edgeSetLoop C12.exE 3)) (edgeSetLoop C12.exE 3) 3 = [0, 0, 2, 0] ∧
+    recLoop (strongTest (reachLoop C12.exE 3)) (edgeSetLoop C12.exE 3) 3 = [0, 0, 3, 0] ∧
+    recLoop (weakTest (binLoop C12.exE 3)) (edgeSetLoop C12.exE 3) 3 = [0, 0, 3, 1] := by decide
+
